@@ -697,3 +697,38 @@ def rule_partial(rep: Report, rid="C01.partial") -> None:
     hands = any(len(n[2]) > 1 and n[2][1] == P.src for n, c in P.ev("new_scanner"))
     rep.ob(rid + ".io", "Parser.parse passes its source argument to the scanner (so scanner I/O is I/O on source text)", hands, file=pf.file, line=pf.node.lineno,
            function=pf.qualname, expected="TokenScanner(source)", found="as expected" if hands else "source is not given to TokenScanner")
+
+
+def rule_oneshot_flow(rep: Report, rid="C15.iter") -> None:
+    """One-shot iterators followed through calls: an iterator object (``itertools.chain(...)``) made outside a loop must not
+    be walked inside it - handed down through parameters and argument tuples, the second round finds it exhausted."""
+    n = 0
+    for label, I, tree, fi in _all_nfs():
+        made = {}
+        nodes = list(nf.iter_nodes(tree))
+        for nd, ctx in nodes:
+            if nd[0] == "alloc" and getattr(I.obj(nd[1]), "one_shot", None):
+                made[nd[1]] = (nf.loops_in_ctx(ctx), nd[2])
+        if not made:
+            continue
+        for ref, (lc, line0) in made.items():
+            uses = []
+            for nd, ctx in nodes:
+                hit = False
+                if nd[0] == "alloc" and nd[1] != ref:
+                    o = I.obj(nd[1])
+                    if isinstance(o, HList) and any(sg[0] == "s" and sg[1] == ref for sg in o.segs):
+                        hit = True
+                elif nd[0] == "loop" and I.loops.get(nd[1], {}).get("iter") == ref:
+                    hit = True
+                elif nd[0] in ("mcall", "extcall") and any(a == ref for a in (nd[3] if nd[0] == "mcall" else nd[2])):
+                    hit = True
+                if hit:
+                    uses.append((nf.loops_in_ctx(ctx), nd[-1] if isinstance(nd[-1], int) else None, nf.guards_in_ctx(ctx)))
+            n += 1
+            again = [(lu, ln) for lu, ln, _ in uses if [l for l in lu if l not in lc]]
+            rep.ob(rid, f"{label}: a one-shot iterator ({I.obj(ref).one_shot}) made outside a loop is not walked inside it", not again, file=fi.file, line=line0,
+                   function=fi.qualname, expected="a list, or the iterator made where it is walked",
+                   found="walked once" if not again else f"made at line {line0}, walked at line {again[0][1]} inside the loop over "
+                   + fmt(I.loops[[l for l in again[0][0] if l not in lc][-1]].get("iter"), I)[:80])
+    rep.counts["one-shot iterator objects followed"] = n
